@@ -10,12 +10,15 @@ let handle toks = match toks with
   | ["ops"; a1; a2; a3; b1; b2; b3] ->
     let a = fv a1 a2 a3 and b = fv b1 b2 b3 in
     let rs = [formatVersion_op_lt a b; formatVersion_op_gt a b; formatVersion_op_le a b; formatVersion_op_ge a b] in
+    let spec = "OK " ^ OStr.concat " " [bool01 (eq_specb a b); bool01 (lexltb a b); bool01 (not (eq_specb a b));
+                          bool01 (lexltb b a); bool01 (not (lexltb b a)); bool01 (not (lexltb a b));
+                          bool01 (canRead_specb a b); bool01 (eq_specb a b)] in
     (match any_fail rs with
      | Some r -> show_res (fun _ -> "") r
      | None ->
        "OK " ^ OStr.concat " " [bool01 (formatVersion_op_eq a b); rb (formatVersion_op_lt a b); bool01 (formatVersion_op_ne a b);
                           rb (formatVersion_op_gt a b); rb (formatVersion_op_le a b); rb (formatVersion_op_ge a b);
-                          bool01 (formatVersion_canRead a b); bool01 (formatVersion_canWrite a b)])
+                          bool01 (formatVersion_canRead a b); bool01 (formatVersion_canWrite a b)]) ^ " ## " ^ spec
   | ["idx"; a1; a2; a3; i] -> show_res string_of_z (formatVersion_op_index (fv a1 a2 a3) (z_of_string i))
   | ["open"; x; y; z; mode; force; defect] ->
     let m = (match mode with "rw" -> ReadWrite | "ro" -> ReadOnly | _ -> Overwrite) in
@@ -28,6 +31,9 @@ let handle toks = match toks with
         | "nonh5" -> NotHDF5
         | "plainh5" -> H5file ({ h_format = None; h_version = None; h_id = None }, false, Z0)
         | _ -> H5file (h, true, Zpos XH)) in
-    show_res (fun n -> "blocks=" ^ string_of_z n) (open_file c m (force = "1"))
+    let spec = if defect <> "none" then "ANY"
+      else if gate_specb (z_of_string x) (z_of_string y) (z_of_string z) m (force = "1")
+      then (if mode = "ow" then "OK blocks=0" else "OK blocks=1") else "ERR" in
+    show_res (fun n -> "blocks=" ^ string_of_z n) (open_file c m (force = "1")) ^ " ## " ^ spec
   | _ -> failwith "bad command"
 let () = run_file OSys.argv.(1) handle
